@@ -68,6 +68,8 @@ type wiring struct {
 	Stores []*sStore
 	Script []wiringDecl
 	Depth  int // number of elements of the root stores' BasePath (0 = the default, 1): stores / lv2 / lv3 / lv4
+	Slack  int // > 0: all root stores are given ONE shared BasePath slice that has this much spare capacity (a caller that built the path with append)
+	sharedBase []string
 }
 
 var wiringBaseLevels = []string{"stores", "lv2", "lv3", "lv4"}
@@ -81,6 +83,13 @@ func (w *wiring) basePath() []string {
 	}
 	if d > len(wiringBaseLevels) {
 		d = len(wiringBaseLevels)
+	}
+	if w.Slack > 0 {
+		if w.sharedBase == nil {
+			w.sharedBase = make([]string, d, d+w.Slack)
+			copy(w.sharedBase, wiringBaseLevels[:d])
+		}
+		return w.sharedBase
 	}
 	return append([]string{}, wiringBaseLevels[:d]...)
 }
@@ -245,6 +254,8 @@ type gStore struct {
 	symbols map[string]boltz.EntitySymbol
 	sets    map[string]boltz.EntitySetSymbol
 	links   map[string]boltz.LinkCollection
+	uidx    map[string]boltz.ReadIndex    // field key -> read side of the unique index declared on this store
+	sidx    map[string]boltz.SetReadIndex // set field -> read side of the set index declared on this store
 }
 
 // ---- a database with stores wired from a schema ----------------------------------------------
@@ -337,7 +348,8 @@ func openHarnessDb(w *wiring, dir string) (*harnessDb, error) {
 				sd.BasePath = []string{def.Name}
 				sd.ParentMapper = func(e boltz.Entity) boltz.Entity { return e }
 			}
-			gs := &gStore{def: def, symbols: map[string]boltz.EntitySymbol{}, sets: map[string]boltz.EntitySetSymbol{}, links: map[string]boltz.LinkCollection{}}
+			gs := &gStore{def: def, symbols: map[string]boltz.EntitySymbol{}, sets: map[string]boltz.EntitySetSymbol{}, links: map[string]boltz.LinkCollection{},
+				uidx: map[string]boltz.ReadIndex{}, sidx: map[string]boltz.SetReadIndex{}}
 			gs.BaseStore = boltz.NewBaseStore(sd)
 			if def.Ext {
 				gs.BaseStore.Extended()
@@ -417,12 +429,12 @@ func openHarnessDb(w *wiring, dir string) (*harnessDb, error) {
 		switch d.Kind {
 		case "unique":
 			if d.Nullable {
-				gs.AddNullableUniqueIndex(gs.symbols[d.Field])
+				gs.uidx[d.Field] = gs.AddNullableUniqueIndex(gs.symbols[d.Field])
 			} else {
-				gs.AddUniqueIndex(gs.symbols[d.Field])
+				gs.uidx[d.Field] = gs.AddUniqueIndex(gs.symbols[d.Field])
 			}
 		case "setidx":
-			gs.AddSetIndex(gs.sets[d.Field])
+			gs.sidx[d.Field] = gs.AddSetIndex(gs.sets[d.Field])
 		case "fkindex":
 			if d.Nullable {
 				gs.AddNullableFkIndex(gs.symbols[d.Field], h.stores[d.Target].sets[d.Back])
@@ -741,6 +753,9 @@ func (h *harnessDb) runTx(t *hTx) string {
 		sb.WriteString(" " + e)
 	}
 	sb.WriteString(h.reads())
+	if storeExtraReads != nil {
+		sb.WriteString(storeExtraReads(h))
+	}
 	sb.WriteString(" ST")
 	for _, f := range h.facts() {
 		sb.WriteString(" " + f)
@@ -748,6 +763,10 @@ func (h *harnessDb) runTx(t *hTx) string {
 	sb.WriteString(" | ")
 	return sb.String()
 }
+
+// storeExtraReads, when set by a sub-command, appends further read-API observations (space separated tokens that
+// start neither with "EV:" nor with "VETOED") to every transaction's observation segment
+var storeExtraReads func(h *harnessDb) string
 
 func fieldValStr(v []byte) string {
 	if len(v) == 0 {
